@@ -59,7 +59,7 @@ func CheckC11(k *sim.Kernel, rr *RelayRun) {
 		name := fmt.Sprintf("cons%d(%s)", ci, c.Plan.Proto)
 		h := c.Http
 		if h.Resp.Err != nil {
-			k.Violate("C11.http", "%s: HTTP response does not parse: %v", name, h.Resp.Err)
+			k.Violate("C11.http", "%s: HTTP response does not parse: %s", name, clip(h.Resp.Err.Error(), 160))
 		}
 		if !h.Resp.HeaderDone {
 			continue
